@@ -35,6 +35,7 @@ import Resolved.Proofs.ResolverMachineFuel
 import Resolved.Proofs.ResolverMachineLoop
 import Resolved.Proofs.ResolverMachineExample
 import Resolved.Proofs.ResolverFuelBound
+import Resolved.Proofs.C08Attempts
 
 namespace Resolved
 
@@ -582,5 +583,16 @@ example : okRec (bigCfg 1 4) 7 ⟨bigCtx, Run.empty⟩ (bigQ 1) = true ∧
 example : okRec (bigCfg 2 4) 7 ⟨bigCtx, Run.empty⟩ (bigQ 2) = false ∧
     okRec (bigCfg 2 4) 11 ⟨bigCtx, Run.empty⟩ (bigQ 2) = true ∧
     okRec (bigCfg 3 4) 11 ⟨bigCtx, Run.empty⟩ (bigQ 3) = false := by decide +kernel
+
+/-- **One attempt per transport in one exchange.**  `query_nameserver` adds to the exchange log at most
+    one UDP attempt followed by at most one TCP attempt for the same address and question - never two
+    attempts on one transport (a seeded change that made a truncated UDP reply try TCP twice, doubling
+    the time one exchange may take on that transport, is what asked for this to be a theorem). -/
+theorem C08_one_attempt_per_transport (oracle : Oracle) (run : Run) (addr : FieldVal) (port : Nat)
+    (q : Question) (rd : Bool) :
+    ∃ l, (queryNameserver oracle run addr port q rd).1.log = run.log ++ l ∧
+      (l = [] ∨ l = [mx_udpEx addr port q rd] ∨ l = [mx_tcpEx addr port q rd] ∨
+       l = [mx_udpEx addr port q rd, mx_tcpEx addr port q rd]) :=
+  c08_query_attempts oracle run addr port q rd
 
 end Resolved
